@@ -93,7 +93,8 @@ func classify(err error) int {
 	return 0
 }
 
-func runReg(c Case, res *lib.Result) string {
+func runReg(c Case, res *lib.Result) (ret string) {
+	defer res.Recover(c)
 	mr := memreg.New("reg.example", memreg.Features{EmptyRange00: c.Empty00, ChunkMin: c.ChunkMin})
 	rt := &memrt.RT{}
 	si := 0
@@ -297,7 +298,8 @@ func runReg(c Case, res *lib.Result) string {
 		lib.CoqBool(err == nil), classify(err), lib.CoqList(lg))
 }
 
-func runOCIDir(c Case, dir string, res *lib.Result) {
+func runOCIDir(c Case, dir string, res *lib.Result) string {
+	defer res.Recover(c)
 	lay := filepath.Join(dir, "layout-c05")
 	_ = os.RemoveAll(lay)
 	defer os.RemoveAll(lay)
@@ -347,6 +349,16 @@ func runOCIDir(c Case, dir string, res *lib.Result) {
 		}
 		return nil
 	})
+	// for the Coq model of the layout put: outcome, and whether a file exists under the digest that names the stream
+	decl := "None"
+	switch c.Declared {
+	case "right", "wrongsize", "digestonly":
+		decl = "(Some " + lib.CoqBytes(c.Stream) + ")"
+	case "wrongdigest", "digestonly-wrong":
+		decl = "(Some " + lib.CoqBytes(append([]byte("x"), c.Stream...)) + ")"
+	}
+	_, stored := fileOf(right)
+	return fmt.Sprintf("mkLayout %s %s %s %s %s", lib.CoqBytes(c.Stream), decl, lib.CoqZ(d.Size), lib.CoqBool(err == nil), lib.CoqBool(stored))
 }
 
 func genStream(r *lib.Rand, cp int) []byte {
@@ -462,13 +474,14 @@ func Run(o lib.Opts) {
 			res.Distinct++
 		}
 		seen.Add(string(kb))
+		term := ""
 		if c.Kind == "ocidir" {
-			runOCIDir(c, o.Out, res)
+			term = runOCIDir(c, o.Out, res)
 		} else {
-			term := runReg(c, res)
-			if o.Mode != "search" && term != "" {
-				cw.Add(term, c)
-			}
+			term = runReg(c, res)
+		}
+		if o.Mode != "search" && term != "" {
+			cw.Add(term, c)
 		}
 		res.Sample(c, 3)
 	}
